@@ -19,11 +19,13 @@ RULE = (
     "A case is non-trivial when the grid has >= 3 points; distinct by content hash"
 )
 PARTIAL = [
-    "Fourier / Wiener values are compared with a Float evaluation of the same formulas (tolerance 1e-12·(1+|argument|)); "
-    "their orthonormality is checked on the implementation with a quadrature that is exact for the products "
-    "(full-period trapezoid), not proved in Lean",
-    "Legendre orthogonality is proved for degrees < 16 (exact polynomial integral); scipy.special.eval_legendre is "
-    "taken as Bonnet's recursion",
+    "Fourier / Wiener: orthonormality is proved over the reals for the continuous integral (C18.fourier_orthonormal, "
+    "C18.wiener_orthonormal); the values are compared with a Float evaluation of the same formulas (tolerance "
+    "1e-12·(1+|argument|)) and the link Float formula <-> real formula is by inspection; the discrete-quadrature error is "
+    "not proved: on the implementation orthonormality is checked with a quadrature that is exact for the products "
+    "(full-period trapezoid)",
+    "Legendre orthogonality is proved for degrees < 16 (exact polynomial integral, tied to the Riemann integral over the "
+    "reals); scipy.special.eval_legendre is taken as Bonnet's recursion",
     "scipy.integrate.simpson is a parameter: normalisation is proved for every weight-based quadrature and the "
     "captured squared norms are fed to the model",
     "IEEE rounding of the truncated-power construction is not modelled: tolerance 64·eps·(1+p·max|domain|/h)·max(1,Σ|terms|)",
